@@ -18,7 +18,8 @@ Ok == /\ Ev.fn \notin {"crash", "timeout"} /\ Ev.guard
            [] Ev.fn = "rev" -> Ev.out = Rev(Ev.s)
            [] Ev.fn = "upper" -> Ev.out = Upper(Ev.s)
            [] Ev.fn = "lower" -> Ev.out = Lower(Ev.s)
-           [] Ev.fn \in {"tok", "tokenizer"} -> TokensOk(Ev.toks, Ev.s, Ev.tok)
+           [] Ev.fn = "tok" -> TokensOk(Ev.toks, Ev.s, Ev.tok) /\ Ev.stops = StopsOf(Ev.s, Ev.tok)
+           [] Ev.fn = "tokenizer" -> TokensOk(Ev.toks, Ev.s, Ev.tok)
            [] Ev.fn = "gets" -> \* all lines of the text, in order
                 LET RECURSIVE Lines(_) Lines(i) == IF i > Len(Ev.s) THEN <<>> ELSE LET g == GetsFrom(Ev.s, i, <<>>, Ev.a - 1) IN <<g[1]>> \o Lines(g[2])
                 IN Ev.toks = Lines(1)
